@@ -11,7 +11,10 @@ def run(ctx, replay):
                        "returned position, last-buffer size, contents) under ASan/LSan; concurrent layer: 2..4 threads calling "
                        "grow_by with amounts crossing buffer boundaries (buffer sizes 1,2,4,8) under the deterministic "
                        "scheduler, traces replayed through the Lean protocol model; oracle: returned ranges tile [0,size), "
-                       "elements default-constructed, references stable; distinct = distinct request lines / scenario shapes")
+                       "elements default-constructed, references stable; distinct = distinct request lines / scenario shapes; "
+                       "native layer: the real ThreadSanitizer on the object_arena scenario of harness/native/c10_tsan.cpp "
+                       "(readers inside operator[] / getBuffer while other threads grow the arena across table-capacity "
+                       "boundaries): a reader that indexes a retired buffer-pointer table races with whoever frees it")
     if THEOREMS:
         ctx.prove("DispensoVerif.Props.C37", THEOREMS)
     else:
@@ -32,3 +35,16 @@ def run(ctx, replay):
     a2 = [ctx.seed, 300 if ctx.tier == "quick" else 10000]
     res2 = vlib.trace_validate(ctx, "arena", exe2, a2)
     vlib.standard_verdict(ctx, "arena", res2, a2, "conc/c37_arena_conc.cpp")
+    # native layer: lock-free readers against growth.  The window between operator[]'s load of the table
+    # pointer and the plain read of the table entry is not a scheduling point under dsched (the tables are
+    # re-allocated inside the arena and cannot be registered as plain regions); the happens-before detector
+    # of the real ThreadSanitizer does not need the window to be hit: any read of a retired table that is
+    # not ordered before its release is reported.
+    if not (replay and replay.get("args")):
+        try:
+            from props import c10_tsan
+        except Exception as e:
+            ctx.broken.append(("harness:c10_tsan", "TSan sweep module missing: %s" % e))
+            return
+        rounds = 6 if ctx.tier == "quick" else 60
+        c10_tsan.run_tsan(ctx, {"args": [ctx.seed, rounds, "object_arena"]}, tie="arena_tsan", include_findings=False, jobs=1)
